@@ -164,8 +164,8 @@ class C18(PropCheck):
                   "cubbyhole read, other requests) and EVERY schedule: wrapping_token_used_at_most_once, unwrap_at_most_once, "
                   "unwrap_exactly_once (all attempts payload-seeking or lookups, all returned => exactly one obtained it), "
                   "payload_only_through_use, after_unwrap_gone (entry invisible in every continuation, nobody else passes), "
-                  "after_unwrap_deleted: _partial proved (every kind but third-party rewrap: two worker steps later token, "
-                  "payload and wrap info are deleted), _full refuted by _cex (finding F14), third_party_unwrap_deletes, "
+                  "after_unwrap_deleted (two worker steps later token, payload and wrap info are deleted; full since the repair "
+                  "of F44), third_party_unwrap_deletes, "
                   "payload_not_to_requester, wrap_token_grants_nothing_else. Tie: trace validation of observed schedules of a "
                   "real Core on a gated backend on every run, policy probes, TTL expiry; the property predicate is evaluated "
                   "directly on the observed outcomes")
